@@ -79,7 +79,14 @@ func main() {
 // re-run their enumeration in this process, which is the same code the check runs).
 func genericReplay(d driver) func(v engine.Violation) []string {
 	return func(v engine.Violation) []string {
-		engine.ReplayPath = append([]string{}, v.Path...)
+		// leading "schedule=..." / "fixture=..." elements name the fixture, not an operation
+		engine.ReplayPath = []string{}
+		for i, el := range v.Path {
+			if i == 0 && (strings.HasPrefix(el, "schedule=") || strings.HasPrefix(el, "fixture=")) && len(v.Path) > 1 && !strings.Contains(v.Path[1], " gas=") {
+				continue
+			}
+			engine.ReplayPath = append(engine.ReplayPath, el)
+		}
 		seen := map[string]bool{}
 		var sigs []string
 		for _, tier := range []string{"quick", "thorough"} {
